@@ -4283,9 +4283,20 @@ impl Handler {
         };
         let effective_auth = refreshed_identity.as_ref().or(auth);
 
-        // Authorization check: if auth is provided, validate the statement
+        // Authorize every statement of the program. Checking `parse_statement(trimmed)`
+        // alone lets a multi-line program through unchecked: it either fails to parse
+        // as one statement, or parses as its first line only (`.kg use g1\n.kg drop g2`).
+        // The program is split exactly as the executor splits it (comments stripped,
+        // continuation lines joined, one statement per line).
+        let program_statements: Vec<statement::Statement> =
+            join_continuation_lines(&strip_comments(trimmed))
+                .lines()
+                .filter_map(|line| statement::parse_statement(line.trim()).ok())
+                .collect();
+
+        // Global-role check for every statement
         if let Some(identity) = effective_auth {
-            if let Ok(ref stmt) = statement::parse_statement(trimmed) {
+            for stmt in &program_statements {
                 crate::auth::authorize_statement(&identity.role, stmt)?;
             }
         }
@@ -4309,7 +4320,7 @@ impl Handler {
                 ));
             }
         }
-        if let Ok(ref stmt) = statement::parse_statement(trimmed) {
+        for stmt in &program_statements {
             match stmt {
                 statement::Statement::Meta(
                     statement::MetaCommand::KgUse(name)
@@ -4325,10 +4336,20 @@ impl Handler {
             }
         }
 
-        // Per-KG authorization: check if user has access to the target KG.
+        // Per-KG authorization: check that the user has access to the KG each
+        // statement acts on. `.kg use` inside the program switches the graph the
+        // following statements act on.
         if let Some(identity) = effective_auth {
             if identity.role != crate::auth::Role::Admin {
-                if let Ok(ref stmt) = statement::parse_statement(trimmed) {
+                // Without an explicit or session-bound graph the executor falls back to
+                // the engine's current (default) graph: authorize against that one.
+                let mut kg_cursor: Option<String> = current_kg.map(str::to_string).or_else(|| {
+                    self.storage
+                        .read()
+                        .current_knowledge_graph()
+                        .map(str::to_string)
+                });
+                for stmt in &program_statements {
                     // Determine which KG the operation targets
                     let target_kg = match stmt {
                         statement::Statement::Meta(
@@ -4352,7 +4373,7 @@ impl Handler {
                             | statement::MetaCommand::Status,
                         ) => None,
                         // All other statements operate on the current KG
-                        _ => current_kg,
+                        _ => kg_cursor.as_deref(),
                     };
 
                     if let Some(kg) = target_kg {
@@ -4363,6 +4384,10 @@ impl Handler {
                         } else {
                             return Err("Access denied".to_string());
                         }
+                    }
+
+                    if let statement::Statement::Meta(statement::MetaCommand::KgUse(name)) = stmt {
+                        kg_cursor = Some(name.clone());
                     }
                 }
             }
